@@ -333,11 +333,16 @@ def ruleDateDOW(ts: datetime, date: Time, dow: Time) -> Time:
 # LatentX: handle time entities that are not grounded to a date yet
 # and assume the next date+time in the future
 @rule(predicate("isDOM"))
-def ruleLatentDOM(ts: datetime, dom: Time) -> Time:
-    dm = ts + relativedelta(day=dom.day)
-    if dm <= ts:
-        dm += relativedelta(months=1)
-    return Time(year=dm.year, month=dm.month, day=dm.day)
+def ruleLatentDOM(ts: datetime, dom: Time) -> Optional[Time]:
+    # next month (starting with the current one) that has this day and where
+    # it is in the future; relativedelta(day=31) would silently clip to the
+    # month length (the 31st asked in February is not February 28th)
+    for months in range(0, 4):
+        dm = ts + relativedelta(day=1, months=months)
+        dm = dm + relativedelta(day=dom.day)
+        if dm.day == dom.day and dm > ts:
+            return Time(year=dm.year, month=dm.month, day=dm.day)
+    return None
 
 
 @rule(predicate("isDOW"))
@@ -349,11 +354,14 @@ def ruleLatentDOW(ts: datetime, dow: Time) -> Time:
 
 
 @rule(predicate("isDOY"))
-def ruleLatentDOY(ts: datetime, doy: Time) -> Time:
-    dm = ts + relativedelta(month=doy.month, day=doy.day)
-    if dm < ts:
-        dm += relativedelta(years=1)
-    return Time(year=dm.year, month=dm.month, day=dm.day)
+def ruleLatentDOY(ts: datetime, doy: Time) -> Optional[Time]:
+    # next year (starting with the current one) that has this day and where it
+    # is not in the past; relativedelta would clip 29.2. to 28.2. in non-leap years
+    for years in range(0, 9):
+        dm = ts + relativedelta(years=years, month=doy.month, day=doy.day)
+        if dm.day == doy.day and dm >= ts:
+            return Time(year=dm.year, month=dm.month, day=dm.day)
+    return None
 
 
 @rule(predicate("isPOD"))
